@@ -795,6 +795,86 @@ AsciiStep(s, c) ==
     [] c = 127 -> Ok(Del(s))
     [] OTHER -> Ok(PrintCh(s, Cell(c, s.ca)))
 
+\* atascii::Parser::print_char
+AtasciiStep(s, c) ==
+  IF s.fe.esc THEN Ok(PrintCh([s EXCEPT !.fe.esc = FALSE], Cell(c, s.ca)))
+  ELSE CASE c = 27 -> Ok([s EXCEPT !.fe.esc = TRUE])
+         [] c = 28 -> Ok(Up(s, 1))
+         [] c = 29 -> Ok(Down(s, 1))
+         [] c = 30 -> Ok(Left(s, 1))
+         [] c = 31 -> Ok(Right(s, 1))
+         [] c = 125 -> Ok(ClearScreen(s))
+         [] c = 126 -> Ok(Bs(s))
+         [] c = 127 \/ c = 158 \/ c = 159 -> Ok(s)
+         [] c = 155 -> Ok(Lf(s))
+         [] c = 156 -> Ok(RemoveTermLine(s, s.y))
+         [] c = 157 -> Ok(InsertTermLine(s, s.y))
+         [] c = 253 -> Ok(s)
+         [] c = 254 -> Ok(Del(s))
+         [] c = 255 -> Ok(Ins(s))
+         [] OTHER -> LET t == IF c > 127 THEN [s EXCEPT !.ca.fg = 0, !.ca.bg = 7] ELSE [s EXCEPT !.ca.fg = 7, !.ca.bg = 0] IN
+                     Ok(PrintCh(t, Cell(IF c > 127 THEN c - 128 ELSE c, t.ca)))
+
+\* viewdata::Parser (Prestel): toroidal 40x24 page, serial attributes; vd = [esc, hold, held, contig, gfx]
+DHEIGHT == 256
+VdResetScreen(s) == [s EXCEPT !.vd = [esc |-> FALSE, hold |-> FALSE, held |-> 32, contig |-> TRUE, gfx |-> FALSE]]
+VdDown(s) == ResetColor(VdResetScreen([s EXCEPT !.y = IF s.y + 1 >= s.th THEN 0 ELSE s.y + 1]))
+VdUp(s) == [s EXCEPT !.y = IF s.y > 0 THEN s.y - 1 ELSE s.th - 1]
+VdRight(s) == IF s.x + 1 >= s.tw THEN VdDown([s EXCEPT !.x = 0]) ELSE [s EXCEPT !.x = s.x + 1]
+VdLeft(s) == IF s.x > 0 THEN [s EXCEPT !.x = s.x - 1] ELSE VdUp([s EXCEPT !.x = s.tw - 1])
+AttrOf(cell) == <<cell[2], cell[3], cell[4]>>             \* TextAttribute equality ignores the font page
+\* fill_to_eol: from the caret to the first cell whose attribute differs from the caret cell's, cells take the caret attribute
+VdFill(s) ==
+  IF s.x <= 0 THEN s
+  ELSE LET a0 == AttrOf(BufGet(s, s.x, s.y))
+           RECURSIVE Stop(_)
+           Stop(x) == IF x >= s.tw THEN s.tw ELSE IF AttrOf(BufGet(s, x, s.y)) # a0 THEN x ELSE Stop(x + 1)
+           e == Stop(s.x)
+       IN WriteRow(s, s.y, s.x, e - 1, LAMBDA x : LET q == BufGet(s, x, s.y) IN <<q[1], s.ca.fg, s.ca.bg, s.ca.at, s.ca.fp>>)
+VdInterpret(s0, c) ==
+  LET esc == s0.vd.esc
+      A(t, f) == [t EXCEPT !.ca.at = f]
+      s1 == IF ~esc THEN s0
+            ELSE CASE c = 92 -> VdFill([A(s0, ClrBit(s0.ca.at, CONCEAL)) EXCEPT !.ca.bg = 0])
+                   [] c = 93 -> VdFill([s0 EXCEPT !.ca.bg = s0.ca.fg])
+                   [] c = 73 -> VdFill(A(s0, ClrBit(s0.ca.at, BLINK)))
+                   [] c = 76 -> VdFill(A(s0, ClrBit(s0.ca.at, DHEIGHT)))
+                   [] c = 88 -> IF ~s0.vd.gfx THEN VdFill(A(s0, SetBit(s0.ca.at, CONCEAL))) ELSE s0
+                   [] c = 89 -> [s0 EXCEPT !.vd.contig = TRUE, !.vd.gfx = TRUE]
+                   [] c = 90 -> [s0 EXCEPT !.vd.contig = FALSE]
+                   [] c = 94 -> [s0 EXCEPT !.vd.hold = TRUE, !.vd.gfx = TRUE]
+                   [] OTHER -> s0
+      s2 == IF ~s1.vd.hold THEN [s1 EXCEPT !.vd.held = 32] ELSE s1
+      mosaic == s2.vd.gfx /\ ((c >= 32 /\ c < 64) \/ (c >= 96 /\ c < 128))
+      pc == IF esc THEN (IF s2.vd.hold THEN s2.vd.held ELSE 32)
+            ELSE IF mosaic THEN (IF c < 64 THEN c - 32 ELSE c - 64) + (IF s2.vd.contig THEN 128 ELSE 192)
+            ELSE c
+      s3 == IF ~esc /\ s2.vd.gfx THEN [s2 EXCEPT !.vd.held = pc] ELSE s2
+      s4 == VdRight(SetCell(s3, s3.x, s3.y, Cell(pc, s3.ca)))
+      s5 == IF ~esc THEN s4
+            ELSE [(CASE c >= 65 /\ c <= 71 -> VdFill([A(s4, ClrBit(s4.ca.at, CONCEAL)) EXCEPT !.vd.gfx = FALSE, !.vd.held = 32, !.ca.fg = 1 + (c - 65)])
+                     [] c >= 81 /\ c <= 87 -> VdFill([A(IF ~s4.vd.gfx THEN [s4 EXCEPT !.vd.gfx = TRUE, !.vd.held = 32] ELSE s4, ClrBit(s4.ca.at, CONCEAL)) EXCEPT !.ca.fg = 1 + (c - 81)])
+                     [] c = 72 -> VdFill(A(s4, SetBit(s4.ca.at, BLINK)))
+                     [] c = 77 -> VdFill(A(s4, SetBit(s4.ca.at, DHEIGHT)))
+                     [] c = 95 -> [s4 EXCEPT !.vd.hold = FALSE]
+                     [] OTHER -> s4) EXCEPT !.vd.esc = FALSE]
+  IN Ok(s5)
+ViewdataStep(s, c) ==
+  LET Done(t) == Ok([t EXCEPT !.vd.esc = FALSE]) IN
+  CASE c = 8 -> Done(VdLeft(s))
+    [] c = 9 -> Done(VdRight(s))
+    [] c = 10 -> Done(VdDown(s))
+    [] c = 11 -> Done(VdUp(s))
+    [] c = 12 -> Done(VdResetScreen(ResetColor([ResetTerminal(s) EXCEPT !.rows = <<>>, !.lhl = 0, !.x = 0, !.y = 0])))
+    [] c = 13 -> Done([s EXCEPT !.x = 0])
+    [] c = 14 \/ c = 15 \/ c = 28 \/ c = 29 -> Ok(s)
+    [] c = 17 -> Done([s EXCEPT !.vis = TRUE])
+    [] c = 20 -> Done([s EXCEPT !.vis = FALSE])
+    [] c = 27 -> Ok([s EXCEPT !.vd.esc = TRUE])
+    [] c = 30 -> Done([s EXCEPT !.x = 0, !.y = First(s)])
+    [] c < 32 -> Done(s)
+    [] OTHER -> VdInterpret(s, c)
+
 Step(s, c) ==
   CASE s.emu = "ansi" -> AnsiStep(s, c)
     [] s.emu = "avatar" -> AvatarStep(s, c)
@@ -802,12 +882,15 @@ Step(s, c) ==
     [] s.emu = "ctrla" -> CtrlAStep(s, c)
     [] s.emu = "renegade" -> RenegadeStep(s, c)
     [] s.emu = "ascii" -> AsciiStep(s, c)
+    [] s.emu = "atascii" -> AtasciiStep(s, c)
+    [] s.emu = "viewdata" -> ViewdataStep(s, c)
     [] OTHER -> AnyRes(s)
 
 \* ------------------------------------------------------------------ initial state and projection
 InitStE(emu, w, h, alloc, music, bs) ==
   [emu |-> emu,
-   fe |-> [k |-> "chars", n |-> 0, rc |-> 32, code |-> FALSE, color |-> FALSE, val |-> 0, pos |-> 0, ca |-> FALSE, bold |-> FALSE, hbg |-> FALSE, rk |-> 0, first |-> 0],
+   fe |-> [k |-> "chars", n |-> 0, rc |-> 32, code |-> FALSE, color |-> FALSE, val |-> 0, pos |-> 0, ca |-> FALSE, bold |-> FALSE, hbg |-> FALSE, rk |-> 0, first |-> 0, esc |-> FALSE],
+   vd |-> [esc |-> FALSE, hold |-> FALSE, held |-> 32, contig |-> TRUE, gfx |-> FALSE],
    tw |-> w, th |-> h, bw |-> w, bh |-> h, lw |-> w, lh |-> h,
    rows |-> IF alloc THEN Repeat(Repeat(InvCell, w), h) ELSE <<>>,
    x |-> 0, y |-> 0, ca |-> DefAttr, im |-> FALSE, vis |-> TRUE, cblink |-> TRUE, ice |-> FALSE, bice |-> FALSE,
@@ -819,7 +902,7 @@ InitStE(emu, w, h, alloc, music, bs) ==
    mus |-> [k |-> "default", a |-> 0, b |-> 0], octave |-> 3, mlength |-> 4, tempo |-> 120, dotted |-> FALSE]
 
 InitSt(w, h, alloc, music, bs) == InitStE("ansi", w, h, alloc, music, bs)
-Modelled(emu) == emu \in {"ansi", "avatar", "pcboard", "ctrla", "renegade", "ascii"}
+Modelled(emu) == emu \in {"ansi", "avatar", "pcboard", "ctrla", "renegade", "ascii", "atascii", "viewdata"}
 
 \* comparison with a recorded event e (see harness/src/term.rs state_event)
 B(v) == IF v THEN 1 ELSE 0
